@@ -31,13 +31,21 @@ async def mutating_coercer(exception, error):
     return error
 
 
+async def redacting_coercer(exception, error):
+    """hides everything: returns a new, empty (falsy) dictionary - still the value that must appear in `errors`"""
+    STATE["n"] += 1
+    out = {}
+    STATE["returned"].append(out)
+    return out
+
+
 async def counting_coercer(exception, error):
     STATE["n"] += 1
     STATE["returned"].append(error)
     return error
 
 
-COERCERS = [("default", None), ("tagging", tagging_coercer), ("mutating", mutating_coercer)]
+COERCERS = [("default", None), ("tagging", tagging_coercer), ("mutating", mutating_coercer), ("redacting", redacting_coercer)]
 
 
 def matrix_job(j):
@@ -265,7 +273,7 @@ def job(j):
 def main(argv):
     rep = common.Report("C18")
     thorough = common.tier() == "thorough"
-    rep.rule = ("cases = (a) every request of the operation-selection x variables matrix of Engine.tla x 3 error coercers x 3 contexts, (b) mutated texts "
+    rep.rule = ("cases = (a) every request of the operation-selection x variables matrix of Engine.tla x 4 error coercers (default, replacing, modifying in place, returning an empty dictionary) x 3 contexts, (b) mutated texts "
                 "(token delete/duplicate/swap/insert, truncation, control/unicode characters, BOM, block strings, deep nesting, str/bytes, invalid UTF-8) seeded "
                 "from TLC-generated documents x operation names x variables objects; each response is one trace judged by TLC; distinct_nontrivial = distinct texts by hash + distinct matrix cells")
     rep.assumptions = ["the syntax level is the stand-in parser's, not libgraphqlparser's (absent from the sandbox)", "text geometry is measured in characters after UTF-8 decoding (errors=replace)"]
